@@ -107,11 +107,11 @@ package bits
 
 //@ func (*FixedSliceReader).ReadZeroTerminatedString
 //@   notypeinv
-//@   requires srInv(s) && maxLen >= 0 && maxLen <= 1<<48
+//@   requires srInv(s) && maxLen >= -(1<<62) && maxLen <= 1<<48
 //@   ensures srInv(s) && srSame(s, old(s.slice), old(s.len))
 //@   ensures s.pos >= old(s.pos) && (old(s.err) != nil ==> s.err != nil)
 //@   ensures len(result) <= s.pos - old(s.pos)
-//@   loop 1 invariant srInv(s) && srSame(s, old(s.slice), old(s.len)) && old(s.pos) <= s.pos && s.pos <= maxPos && maxPos <= s.len && startPos == old(s.pos) && s.err == nil
+//@   loop 1 invariant srInv(s) && srSame(s, old(s.slice), old(s.len)) && old(s.pos) <= s.pos && (s.pos <= maxPos || s.pos == old(s.pos)) && maxPos <= s.len && startPos == old(s.pos) && s.err == nil
 //@   loop 1 decreases maxPos - s.pos
 
 //@ func (*FixedSliceReader).ReadPossiblyZeroTerminatedString
